@@ -210,7 +210,9 @@ impl Network {
             .node(service_trip)
             .as_service_trip()
             .maximal_formation_count();
-        limit_of_type.map(|l| l.min(limit_of_node.unwrap_or(l)))
+        limit_of_type
+            .map(|l| l.min(limit_of_node.unwrap_or(l)))
+            .or(limit_of_node)
     }
 
     pub fn get_depot_idx(&self, node_idx: NodeIdx) -> DepotIdx {
